@@ -304,6 +304,17 @@ def Trie.nodeHashes (H : Bytes → Bytes) : Trie → List Bytes
         | none => []
         | some (k, v) => [H (leafEnc k v)]) ++ (l.nodeHashes H ++ r.nodeHashes H))
 
+/-- The node hashes a chunk imports when it verifies against `root` (nothing otherwise). -/
+def chunkNodes (H : Bytes → Bytes) (root : Bytes) (c : List (Option Bytes)) : List Bytes :=
+  match verifyProof H root { v := 0, untrusted := root, entries := c } with
+  | .ok s => s.nodeHashes H
+  | .error _ => []
+
+/-- Executable cover predicate: every node of the tree is materialised by some chunk. -/
+def coverB (H : Bytes → Bytes) (root : Bytes) (t : Trie) (cs : List (List (Option Bytes))) : Bool :=
+  let all := cs.flatMap (chunkNodes H root)
+  (t.nodeHashes H).all (fun h => all.contains h)
+
 inductive RErr
   | noRestore | inProgress | alreadyRestored | chunkNotFound | corrupted | proofFailed
   deriving Repr, DecidableEq
